@@ -40,10 +40,11 @@ type Result struct {
 	Ops       []string          `json:"ops,omitempty"`
 	Config    string            `json:"config,omitempty"`
 	Decisions int               `json:"decisions,omitempty"`
-	Owned     bool              `json:"owned,omitempty"` // the violation belongs to the property being checked
-	Cases     int               `json:"cases,omitempty"` // evaluations inside this run (crash states, fault points)
-	Known     map[string]string `json:"known,omitempty"` // listed findings met by this run (pattern -> example)
-	Shape     string            `json:"shape,omitempty"` // coarse signature of the case (distinct counting)
+	Owned     bool              `json:"owned,omitempty"`  // the violation belongs to the property being checked
+	Cases     int               `json:"cases,omitempty"`  // evaluations inside this run (crash states, fault points)
+	Known     map[string]string `json:"known,omitempty"`  // listed findings met by this run (pattern -> example)
+	Stalls    int               `json:"stalls,omitempty"` // times the stall watchdog intervened (the worker process is retired afterwards)
+	Shape     string            `json:"shape,omitempty"`  // coarse signature of the case (distinct counting)
 }
 
 // Profiles per property for the seq engine.
@@ -142,6 +143,10 @@ func RunSeq(p Params) *Result {
 		SimMs: int64(w.Now() / 1e6), NOps: len(kept), Stats: s.Stats, Config: cfg0.String(), Decisions: len(w.Decisions)}
 	if w.OverSteps && s.V == nil {
 		res.Incon = "step budget exhausted"
+	}
+	res.Stalls = w.Stalls
+	if w.Stalls > 0 && s.V == nil {
+		res.Incon = "stall: the code under test waited on a primitive the simulator does not see and was released by another task (wall time took part in the schedule)"
 	}
 	for k, v := range w.Stats {
 		res.Stats["w:"+k] = v
